@@ -141,6 +141,9 @@ class Fn:
         self.arrays = {}          # local constant arrays: name -> (kind, [lean literals])
         self.loop_no = 0
         self.fuels = []
+        self.origin = {}          # Lean parameter -> ('scalar', c name) | ('field', struct, field) | ('mem', struct) | ('same', a, b)
+        self.ret_mems = []        # memories a value-returning function writes: returned after the value and the out-parameters
+        self.outparams = []       # scalar pointer parameters written through `*p = e`: returned after the value
         self.ptrs = {}            # pointer local -> (memory C-ish name, Lean name of its row variable)
         self.ptr_mem = {}         # pre-pass: pointer local -> memory name
         self.pending = []         # postfix side effects of the statement being translated
@@ -150,10 +153,11 @@ class Fn:
         self.brk_no = 0
 
     # ------------------------------------------------------------ parameters / free names
-    def free(self, lname, kind):
+    def free(self, lname, kind, origin=None):
         if lname not in self.pkind:
             self.pkind[lname] = kind
             self.params.append((lname, kind))
+            self.origin[lname] = origin or ('scalar', lname[2:])
         return lname
 
     # ------------------------------------------------------------ expressions
@@ -197,7 +201,7 @@ class Fn:
            all((kind_of(qt(strip(x))) or '') == 'p:?' and strip(x).get('kind') == 'DeclRefExpr' for x in n0['inner']):
             # identity of two struct pointers (e.g. `A == B`): a Boolean parameter
             a, b = [strip(x)['referencedDecl']['name'] for x in n0['inner']]
-            nm = self.free('v_%s__same__%s' % (a, b), 'b')
+            nm = self.free('v_%s__same__%s' % (a, b), 'b', ('same', a, b))
             return nm if n0['opcode'] == '==' else '(!%s)' % nm
         if k == 'BinaryOperator' and n0['opcode'] in ('<', '<=', '>', '>=', '==', '!='):
             a, b = n0['inner']
@@ -240,7 +244,7 @@ class Fn:
             base = strip(n['inner'][0])
             if base.get('kind') == 'DeclRefExpr':
                 nm = '%s_%s' % (base['referencedDecl']['name'], n['name'])
-                return self.free(V(nm), self.expr_kind(n))
+                return self.free(V(nm), self.expr_kind(n), ('field', base['referencedDecl']['name'], n['name']))
             raise CTransError('%s: member expression on a non-variable' % self.name)
         if k == 'ArraySubscriptExpr':
             base, idx = n['inner']
@@ -272,6 +276,9 @@ class Fn:
             if ck == 'FloatingToIntegral':
                 return self.float_to_int(inner)
             raise CTransError('%s: cast kind %s' % (self.name, ck))
+        if k == 'UnaryOperator' and n['opcode'] == '*' and strip(n['inner'][0]).get('kind') == 'DeclRefExpr' and \
+           strip(n['inner'][0])['referencedDecl']['name'] in self.outparams:
+            return V('deref_' + strip(n['inner'][0])['referencedDecl']['name'])
         if k == 'UnaryOperator' and n['opcode'] == '*':
             mem, row, idx = self.target(n)
             return '(%s %s %s)' % (V(mem), row, idx)
@@ -333,9 +340,51 @@ class Fn:
             fname = callee['referencedDecl']['name']
             if fname not in self.tr.known_fns:
                 raise CTransError('%s: call of untranslated function %s' % (self.name, fname))
-            args = [self.arg(x) for x in n['inner'][1:]]
-            return '(%s %s)' % (self.tr.known_fns[fname], ' '.join(args))
+            sig = self.tr.sigs.get(fname)
+            if sig is None or sig['void_outs'] is not None or sig['outparams'] or sig['ret_mems']:
+                raise CTransError('%s: call of %s inside an expression' % (self.name, fname))
+            return '(%s %s)' % (self.tr.known_fns[fname], ' '.join(self.call_args(sig, n['inner'][1:])))
         raise CTransError('%s: unsupported expression kind %s' % (self.name, k))
+
+    def call_args(self, sig, argnodes):
+        """Lean arguments for a call of a translated function: scalar C parameters from the argument expressions;
+        the callee's struct fields / memories / identity flags from the caller's struct argument of the same position"""
+        cparams = sig['cparams']
+        if len(cparams) != len(argnodes):
+            raise CTransError('%s: arity of call' % self.name)
+        bind = {}
+        for (cn, ck), an in zip(cparams, argnodes):
+            if ck == 'p:?':
+                a = strip(an)
+                while a.get('kind') in ('CStyleCastExpr', 'ImplicitCastExpr'):
+                    a = strip(a['inner'][0])
+                if a.get('kind') != 'DeclRefExpr':
+                    raise CTransError('%s: struct argument that is not a parameter' % self.name)
+                bind[cn] = ('struct', a['referencedDecl']['name'])
+            else:
+                bind[cn] = ('val', self.arg(an))
+        out = []
+        for (ln, lk, org) in sig['params']:
+            if org[0] == 'scalar':
+                if org[1] not in bind or bind[org[1]][0] != 'val':
+                    raise CTransError('%s: cannot bind callee parameter %s' % (self.name, ln))
+                out.append(bind[org[1]][1])
+            elif org[0] == 'field':
+                y = bind[org[1]][1]
+                out.append(self.free(V('%s_%s' % (y, org[2])), lk, ('field', y, org[2])))
+            elif org[0] == 'mem':
+                y = bind[org[1]][1]
+                mem = 'mem_' + y
+                if mem not in self.locals:
+                    self.locals[mem] = 'm2'
+                    self.free(V(mem), 'm2', ('mem', y))
+                out.append(V(mem))
+            elif org[0] == 'same':
+                ya, yb = bind[org[1]][1], bind[org[2]][1]
+                out.append('true' if ya == yb else self.free('v_%s__same__%s' % (ya, yb), 'b', ('same', ya, yb)))
+            else:
+                raise CTransError('%s: parameter origin %r' % (self.name, org))
+        return out
 
     def target(self, n):
         """(memory name, Lean row term, Lean index term) of the cell an lvalue `p[i]` / `*p` / `*p++` denotes"""
@@ -441,6 +490,11 @@ class Fn:
                     nm = t['referencedDecl']['name']
                     if nm not in declared and nm not in out:
                         out.append(nm)
+                elif n.get('kind') != 'UnaryOperator' and t.get('kind') == 'UnaryOperator' and t.get('opcode') == '*' and \
+                        strip(t['inner'][0]).get('kind') == 'DeclRefExpr' and strip(t['inner'][0])['referencedDecl']['name'] in self.outparams:
+                    nm = 'deref_' + strip(t['inner'][0])['referencedDecl']['name']
+                    if nm not in out:
+                        out.append(nm)
                 elif n.get('kind') != 'UnaryOperator':
                     b = t
                     if b.get('kind') == 'ArraySubscriptExpr':
@@ -453,6 +507,17 @@ class Fn:
                         mem = self.ptr_mem[b['referencedDecl']['name']]
                         if mem not in out:
                             out.append(mem)
+            if k == 'CallExpr':
+                cal = strip(n['inner'][0])
+                sig = self.tr.sigs.get(cal.get('referencedDecl', {}).get('name')) if cal.get('kind') == 'DeclRefExpr' else None
+                if sig and sig['void_outs']:
+                    for m_ in sig['void_outs']:
+                        pos = [i for i, (cn, ck) in enumerate(sig['cparams']) if cn == m_[4:]][0]
+                        a = strip(n['inner'][1 + pos])
+                        while a.get('kind') in ('CStyleCastExpr', 'ImplicitCastExpr'):
+                            a = strip(a['inner'][0])
+                        if a.get('kind') == 'DeclRefExpr' and ('mem_' + a['referencedDecl']['name']) not in out:
+                            out.append('mem_' + a['referencedDecl']['name'])
             for c in n.get('inner', []):
                 if isinstance(c, dict):
                     walk(c)
@@ -495,6 +560,9 @@ class Fn:
         k = n.get('kind')
         if k == 'BinaryOperator' and n['opcode'] == '=':
             t = strip(n['inner'][0])
+            if t.get('kind') == 'UnaryOperator' and t.get('opcode') == '*' and strip(t['inner'][0]).get('kind') == 'DeclRefExpr' \
+               and strip(t['inner'][0])['referencedDecl']['name'] in self.outparams:
+                return 'deref_' + strip(t['inner'][0])['referencedDecl']['name'], self.value(n['inner'][1])
             if t.get('kind') != 'DeclRefExpr':
                 rhs = self.value(n['inner'][1])
                 mem, row, idx = self.target(t)
@@ -722,6 +790,21 @@ class Fn:
             callee = strip(s['inner'][0])
             if callee.get('kind') == 'DeclRefExpr' and callee['referencedDecl']['name'] in ('m4ri_die', '__assert_fail', 'assert'):
                 return self.seq(rest, k_final, ind)
+            fname = callee.get('referencedDecl', {}).get('name')
+            sig = self.tr.sigs.get(fname)
+            if sig and sig['void_outs'] is not None and not sig['outparams']:
+                args = self.call_args(sig, s['inner'][1:])
+                # the callee returns the new contents of the memories it writes: bind them to the caller's memories
+                cparams = dict(sig['cparams'])
+                bindm = []
+                for m_ in sig['void_outs']:
+                    pos = [i for i, (cn, ck) in enumerate(sig['cparams']) if cn == m_[4:]][0]
+                    a = strip(s['inner'][1 + pos])
+                    while a.get('kind') in ('CStyleCastExpr', 'ImplicitCastExpr'):
+                        a = strip(a['inner'][0])
+                    bindm.append('mem_' + a['referencedDecl']['name'])
+                return '%slet %s : %s := (%s %s)\n%s' % (pad, self.tup(bindm), self.tup_type(bindm), self.tr.known_fns[fname],
+                                                        ' '.join(args), self.seq(rest, k_final, ind))
             raise CTransError('%s: call statement outside the translated subset' % self.name)
         raise CTransError('%s: unsupported statement kind %s' % (self.name, k))
 
@@ -771,7 +854,7 @@ class Fn:
             mem = 'mem_' + mc[0]
             if mem not in self.locals:
                 self.locals[mem] = 'm2'
-                self.free(V(mem), 'm2')
+                self.free(V(mem), 'm2', ('mem', mc[0]))
             rowv = '%s__row' % V(nm)
             out = '%slet %s : Int := %s\n' % (pad, rowv, self.value(mc[1]))
             start = '(0 : Int)'
@@ -791,10 +874,13 @@ class Fn:
     def ltype(self, name):
         k = self.locals[name]
         if k == 'ret':
-            return 'Option Unit' if self.void_outs is not None else 'Option (%s)' % LTYPE[self.ret_kind]
+            return 'Option Unit' if self.void_outs is not None else 'Option (%s)' % self.ret_lean_type()
         if k == 'flag':
             return 'Bool'
         return LTYPE[k]
+
+    def ret_lean_type(self):
+        return ' × '.join([LTYPE[self.ret_kind]] + ['Int'] * len(self.outparams) + ['(%s)' % LTYPE['m2']] * len(self.ret_mems))
 
     def tup_type(self, names):
         ts = [self.ltype(x) for x in names]
@@ -866,6 +952,8 @@ class Fn:
         e = self.value(n)
         if self.ret_kind and kk != self.ret_kind:
             e = self.conv(e, kk, self.ret_kind, self.ret_type)
+        if self.outparams or self.ret_mems:
+            e = '(%s, %s)' % (e, ', '.join([V('deref_' + x) for x in self.outparams] + [V(m) for m in self.ret_mems]))
         return e
 
 
@@ -878,6 +966,7 @@ class Translator:
         self.tu_dir = tu_dir
         self.tu_dir_nosse = tu_dir_nosse
         self.known_fns = {}       # C name -> Lean name
+        self.sigs = {}            # C name -> signature of the generated function (for calls)
         self.globals_ = {'m4ri_radix': ('i', '64'), 'm4ri_one': ('w', '1'), 'm4ri_ffff': ('w', None)}
         self.fuels = {}
         self.out = []
@@ -906,7 +995,7 @@ class Translator:
         if not re.search(r'static\s+word\s+const\s+m4ri_ffff\s*=\s*__M4RI_CONVERT_TO_WORD\(-1\)', misc):
             raise CTransError('misc.h: definition of m4ri_ffff not recognised')
 
-    def function(self, cfile, cname, lname, fuels=(), slice_=None, doc='', nosse=False):
+    def function(self, cfile, cname, lname, fuels=(), slice_=None, doc='', nosse=False, outparams=None):
         for i, f in enumerate(fuels):
             self.fuels[(cname if not slice_ else lname, i + 1)] = f
         ast = clang_ast(self.tu_dir if not nosse else self.tu_dir_nosse, cfile, cname, sse=not nosse)
@@ -920,6 +1009,12 @@ class Translator:
                         raise CTransError('%s: parameter %s of unsupported type %r' % (cname, p.get('name'), p['type']['qualType']))
                     if pk == 'p:?':
                         continue                       # a struct pointer (mzd_t *): its fields / rows become parameters on use
+                    if pk == 'p:i' and p['name'] in (outparams or ()):
+                        # written through `*p = e`: a local holding the pointee; its initial value is a parameter
+                        fn.outparams.append(p['name'])
+                        fn.locals['deref_' + p['name']] = 'i'
+                        fn.free(V('deref_' + p['name']), 'i', ('scalar', p['name']))
+                        continue
                     if pk in LTYPE:
                         fn.locals[p['name']] = pk      # parameters are assignable locals
                     fn.free(V(p['name']), pk)
@@ -933,7 +1028,7 @@ class Translator:
                 fn.void_outs = outs
                 for m_ in outs:
                     fn.locals[m_] = 'm2'
-                    fn.free(V(m_), 'm2')
+                    fn.free(V(m_), 'm2', ('mem', m_[4:]))
                 term = fn.seq(stmts, lambda: fn.tup(outs), 1)
                 rty = fn.tup_type(outs)
             else:
@@ -941,8 +1036,12 @@ class Translator:
                 fn.ret_type = rt
                 if fn.ret_kind not in LTYPE:
                     raise CTransError('%s: return type %r' % (cname, rt))
+                fn.ret_mems = [x for x in fn.assigned(stmts) if x.startswith('mem_')]
+                for m_ in fn.ret_mems:
+                    fn.locals[m_] = 'm2'
+                    fn.free(V(m_), 'm2', ('mem', m_[4:]))
                 term = fn.seq(stmts, lambda: (_ for _ in ()).throw(CTransError('%s: control reaches the end without return' % cname)), 1)
-                rty = LTYPE[fn.ret_kind]
+                rty = fn.ret_lean_type()
         else:
             start, end, outs = slice_['start'], slice_['end'], slice_['outs']
             stmts = find_slice(body, start, end, cname, slice_.get('nth', 0), slice_.get('expect', 1))
@@ -956,6 +1055,10 @@ class Translator:
             rty = fn.tup_type(outs)
         params = ' '.join('(%s : %s)' % (n, lean_type(k)) for n, k in fn.params)
         self.known_fns[cname] = 'M4ri.Gen.C.' + lname
+        if not slice_:
+            self.sigs[cname] = dict(cparams=[(p_['name'], kind_of(p_['type']['qualType'])) for p_ in ast['inner'] if p_.get('kind') == 'ParmVarDecl'],
+                                    params=[(n_, k_, fn.origin[n_]) for n_, k_ in fn.params], void_outs=fn.void_outs,
+                                    outparams=list(fn.outparams), ret_mems=list(fn.ret_mems))
         self.out.append('/-- %s `%s`%s%s -/\ndef %s %s : %s :=\n%s\n' % (
             cfile, cname, ' (slice %s .. %s)' % (slice_['start'], slice_['end']) if slice_ else '', (' — ' + doc) if doc else '',
             lname, params, rty, term))
@@ -1040,6 +1143,13 @@ def catalogue(t):
     F('m4ri/mzd.c', 'mzd_equal', 'mzdEqual', fuels=['(v_A_nrows).toNat', '(v_A_width).toNat'])
     F('m4ri/mzd.c', 'mzd_cmp', 'mzdCmp', fuels=['(v_A_nrows).toNat', '(v_A_width).toNat'])
     F('m4ri/mzd.c', 'mzd_first_zero_row', 'mzdFirstZeroRow', fuels=['(v_A_nrows).toNat', '(v_A_width).toNat'])
+    F('m4ri/mzd.c', 'mzd_row_swap', 'mzdRowSwap0')
+    F('m4ri/mzd.c', 'mzd_row_add', 'mzdRowAdd', nosse=True)
+    F('m4ri/mzd.c', 'mzd_gauss_delayed', 'mzdGaussDelayed', nosse=True,
+      fuels=['(v_M_ncols).toNat', '(v_M_nrows).toNat', '(v_M_nrows).toNat'])
+    R, W = '(v_A_nrows).toNat', '(v_A_width).toNat'
+    F('m4ri/mzd.c', 'mzd_find_pivot', 'mzdFindPivot', outparams=('r', 'c'),
+      fuels=['(v_A_ncols).toNat + 1', R, '64', R, '64', W, R, '64', R, '64'])
     # --- graycode
     F('m4ri/graycode.c', 'm4ri_gray_code', 'grayCode', fuels=['(v_length).toNat + 1'])
     F('m4ri/graycode.c', 'log2_floor', 'log2Floor', fuels=['6'])
